@@ -608,6 +608,27 @@ pub fn round_c03(rt: &tokio::runtime::Runtime, hooks: &Hooks, seed: u64) -> Valu
             }
         }));
     }
+    // in some rounds history frames are removed while the followers scan: a removed frame may or may not be
+    // delivered, every other one still must be
+    let mut conc_removed: BTreeSet<u128> = BTreeSet::new();
+    if rng.chance(300) && hist_ids.len() > 20 {
+        for (k, (id, _)) in hist_ids.iter().enumerate() {
+            if k > 2 && k % 9 == 4 && k < hist_ids.len() * 2 / 3 && Some(*id) != last_id && !removed.contains(id) {
+                conc_removed.insert(*id);
+            }
+        }
+        let victims: Vec<u128> = conc_removed.iter().copied().collect();
+        let store = store.clone();
+        let go = go.clone();
+        hs.push(std::thread::spawn(move || {
+            while !go.load(Ordering::SeqCst) {
+                std::thread::yield_now();
+            }
+            for v in victims {
+                let _ = store.remove(&Scru128Id::from(v));
+            }
+        }));
+    }
     if pre_start {
         go.store(true, Ordering::SeqCst);
         std::thread::sleep(Duration::from_micros(rng.range(0, 2000)));
@@ -731,7 +752,11 @@ pub fn round_c03(rt: &tokio::runtime::Runtime, hooks: &Hooks, seed: u64) -> Valu
         }
     }
     q.insert(sent.id.to_u128());
-    let d = json!({"history": hist, "scope": scope.map(|s| s.to_string()), "start": start_kind, "appenders": appenders, "pre_start": pre_start, "ended": how,
+    // known, but optional
+    for c in &conc_removed {
+        p.remove(c);
+    }
+    let d = json!({"history": hist, "scope": scope.map(|s| s.to_string()), "start": start_kind, "removed_during_the_scan": conc_removed.len(), "appenders": appenders, "pre_start": pre_start, "ended": how,
                    "directed": rule.map(|r| format!("{}->{}", r.0, r.1)), "p": p.len(), "u": u.len(), "q": q.len()});
     let real: Vec<&Frame> = got.iter().filter(|f| !is_synth(f)).collect();
     let rid: Vec<u128> = real.iter().map(|f| f.id.to_u128()).collect();
@@ -768,7 +793,7 @@ pub fn round_c03(rt: &tokio::runtime::Runtime, hooks: &Hooks, seed: u64) -> Valu
         }
         for f in &real {
             let id = f.id.to_u128();
-            let known = p.contains(&id) || u.contains(&id) || q.contains(&id);
+            let known = p.contains(&id) || u.contains(&id) || q.contains(&id) || (conc_removed.contains(&id) && in_scope(f.context_id.to_u128()) && last_id.map(|l| id > l).unwrap_or(true) && !tail);
             if !known {
                 let sig = if !in_scope(f.context_id.to_u128()) {
                     "follow/frame-of-foreign-context"
@@ -840,6 +865,7 @@ pub fn round_c03(rt: &tokio::runtime::Runtime, hooks: &Hooks, seed: u64) -> Valu
         if let Some(st) = estart {
             want.retain(|i| *i > *st);
         }
+        want.retain(|i| !conc_removed.contains(i));
         let real: Vec<u128> = egot.iter().filter(|f| !is_synth(f)).map(|f| f.id.to_u128()).collect();
         extra_frames += real.len() as u64;
         let rs: BTreeSet<u128> = real.iter().copied().collect();
@@ -871,6 +897,7 @@ pub fn round_c03(rt: &tokio::runtime::Runtime, hooks: &Hooks, seed: u64) -> Valu
         "config": d,
         "frames": rid.len() as u64 + extra_frames,
         "window_hits": u.len(),
+        "removed_during_scan": conc_removed.len(),
         "delivered_from_window": both,
         "window_entered": entered,
         "window_blocked": blocked,
